@@ -19,6 +19,51 @@ CHECKS = {
         design="DESIGN.md §3 C05"),
 }
 
+CHECKS.update({
+    "C01": dict(
+        technique="TLA+ store model (Export/Import/Clone + DocView of the serialised text) ; seeded raw property graphs over "
+                  "adversarial value classes x 2 formats x 4 import entry points x 2 backends recorded and judged by Trace_FimStore",
+        text="TLC checks the import/export/clone laws of the reference model; conformance: raw graphs with values from 14 value "
+             "classes (quotes, markup, non-ASCII, blanks, empty, CR/LF, ints, bools) are serialised, the text is read back with "
+             "plain networkx/lxml (content + Neo4j label markup on every node and edge), imported through every entry point, "
+             "validated and serialised again; every step is compared with the model's prediction by TLC.",
+        note="Raw property-graph part of C01 (models built through the topology API are serialised in the C07/C13 checks); "
+             "value classes are sampled per seed, not exhausted; control characters that are not XML-legal are outside the quantifier.",
+        design="DESIGN.md §3 C01"),
+    "C04": dict(
+        technique="TLA+ store model with frame condition (Isolation) model-checked over 3 graph ids; TLC-generated multi-graph "
+                  "behaviours (from empty and seeded stores, incl. tampered documents) and random interleavings replayed on both "
+                  "stores and judged by Trace_FimStore",
+        text="TLC proves Isolation / CloneFaithful / FailureAtomic on the multi-graph alphabet; every generated behaviour and "
+             "2.5k random 50-step interleavings over 4 graph ids are executed on both store flavours (both text formats); after "
+             "EVERY step the whole store (all graphs, cross-graph edges, allocator ahead of all internal ids, lock free) must "
+             "equal the model's prediction, which includes the frame condition.",
+        note="Internal integer ids are not compared (only uniqueness/allocator-ahead); deliberate re-homing by GraphID rewrite is C14's.",
+        design="DESIGN.md §3 C04"),
+    "C06": dict(
+        technique="TLA+ query operators (neighbours, shortest paths by BFS layers, hop paths) checked by TLC on every typed graph of "
+                  "3 (thorough 4) nodes; every (graph, query) replayed next to a decoy graph on both backends + random 5-7 node "
+                  "graphs, admissible-set membership judged by Trace_FimStore",
+        text="Exhaustive enumeration of all typed graphs on 3 nodes (2 classes, 2 relations, optional self-loops; thorough: 4 "
+             "nodes) x all query arguments; TLC checks the oracle itself (QueriesSound) and judges every answer of the real code: "
+             "neighbour sets exactly, paths as members of the set of admissible minimal paths.",
+        note="Path-with-hops follows the code's documented 'no loops' reading (induced subgraph acyclic), named in the spec.",
+        design="DESIGN.md §3 C06"),
+    "C20": dict(
+        technique="TLA+ model of the store critical sections (FimStoreConc) model-checked for all interleavings (with a lock-free "
+                  "variant that must fail); real threads of the real store classes run under a sys.settrace scheduler with an "
+                  "instrumented lock, all schedules up to a preemption bound + random ones; histories judged by Trace_FimStoreConc "
+                  "(lock balance + linearizability search)",
+        text="TLC explores every interleaving of the code-shaped steps of 2-3 threads (LockBalanced, NoDuplicateInternalId, "
+             "Linearizable, MutualExclusion, Termination under fairness); the implementation is bound by CHESS-style exploration "
+             "with preemption at every source line of the store modules; TLC decides for every recorded history that lock events "
+             "are balanced on every path (incl. failing imports and early returns) and that some sequential order explains all "
+             "outcomes and the final store content.",
+        note="Preemption points are the source lines of the three store modules (iteration inside networkx/networkx_query is atomic); "
+             "preemption bound 1 quick / 2 thorough plus random schedules.",
+        design="DESIGN.md §3 C20"),
+})
+
 PENDING = {}
 
 
